@@ -9,7 +9,8 @@ import cert as C
 import gen as G
 import organic
 
-THEOREMS = ["Adc.checkEquiv_sound", "Adc.canonTensor_injective"]
+THEOREMS = ["Adc.checkEquiv_sound", "Adc.canonTensor_injective", "Adc.importIndices_printIdxs", "Adc.importTensor_printTensor",
+            "Adc.splitIdxString_names"]
 
 
 def roundtrip(ctx, e, label, rep_extra=None):
@@ -173,7 +174,161 @@ def library(ctx):
                 ctx.notes.append(f"use_symbolic_denominators {label}: {ex!r}")
 
 
+def index_grammar(ctx, n):
+    """tie D for Adc/Latex.lean (theorem importIndices_printIdxs): the printed index string of random index lists and its
+    import, model vs Index._latex / import_from_sympy_latex; a small stream of malformed strings (model: refusal)"""
+    from adcgen.indices import get_symbols
+    from adcgen.func import import_from_sympy_latex
+    from adcgen.sympy_objects import NonSymmetricTensor
+    rng = ctx.rng
+    drv = ctx.drv()
+    SP = {"": 0, "a": 1, "b": 2}
+    INV = {0: "", 1: "a", 2: "b"}
+
+    def code_import(text):
+        try:
+            r = import_from_sympy_latex("{Xq_{" + text + "}}").sympy
+        except Exception as ex:
+            return None, f"{type(ex).__name__}"
+        ts = list(sympy.sympify(r).atoms(NonSymmetricTensor))
+        if len(ts) != 1:
+            return None, "no-tensor"
+        return [[i.name, SP[i.spin]] for i in ts[0].indices], None
+
+    for it in range(n):
+        k = rng.randint(1, 6)
+        names, spins = [], []
+        for _ in range(k):
+            nm = rng.choice(G.OCC + G.VIRT + G.GEN)
+            if rng.random() < 0.35:
+                nm += str(rng.choice([1, 2, 3, 7, 10, 12, 33, 104]))
+            names.append(nm)
+            spins.append(rng.choice(["", "", "a", "b"]))
+        if len(set(zip(names, spins))) != len(names) and rng.random() < 0.5:
+            pass            # repeated indices are fine for the grammar
+        idx = get_symbols(names, "".join(spins)) if all(spins) else [get_symbols([nm], sp or None)[0] for nm, sp in zip(names, spins)]
+        printed = "".join(i._latex(None) for i in idx)
+        wire = [[nm, SP[sp]] for nm, sp in zip(names, spins)]
+        ans = drv.ask({"op": "idxprint", "l": wire})
+        ctx.count("index_strings_printed")
+        ctx.case(("idxgrammar", printed), nontrivial=k >= 2 and any(spins))
+        rep = {"kind": "index-grammar", "names": names, "spins": spins, "printed": printed}
+        if ans.get("s") != printed:
+            ctx.violation(f"the printed index string {printed!r} of {list(zip(names, spins))} differs from the model printIdxs: {ans}", rep)
+            continue
+        got, err = code_import(printed)
+        back = drv.ask({"op": "idximport", "s": printed})
+        ctx.count("index_strings_imported")
+        if not back.get("ok") or back.get("l") != wire:
+            ctx.violation(f"model importIndices does not restore {wire} from {printed!r}: {back} (theorem importIndices_printIdxs "
+                          "would be violated: model/driver inconsistency)", rep)
+            continue
+        if got != wire:
+            ctx.violation(f"importing the printed index string {printed!r} gives {got if got is not None else err}, "
+                          f"printed from {wire}", rep)
+            continue
+        # malformed variants: the model refuses exactly when the importer raises
+        if rng.random() < 0.3:
+            mode = rng.choice(["word", "nolabelname", "double"])
+            if mode == "word":
+                bad = printed.replace("\\alpha", "\\gamma", 1) if "\\alpha" in printed else printed + "_{\\delta}"
+            elif mode == "nolabelname":
+                bad = "_{\\alpha}" + printed
+            else:
+                bad = printed + "_{\\alpha}_{\\beta}"
+            g2, e2 = code_import(bad)
+            m2 = drv.ask({"op": "idximport", "s": bad})
+            ctx.count("malformed_index_strings")
+            if (g2 is None) != (not m2.get("ok")) or (g2 is not None and g2 != m2.get("l")):
+                ctx.violation(f"malformed index string {bad!r}: importer gives {g2 if g2 is not None else e2}, model {m2}",
+                              dict(rep, malformed=bad))
+
+
+def tensor_grammar(ctx, n):
+    """tie D for the tensor level of Adc/Latex.lean (theorem importTensor_printTensor): latex text of single tensor objects
+    (one or two index groups, spin labels, numbered names, exponents) and its import, model vs code"""
+    from adcgen.indices import get_symbols
+    from adcgen.func import import_from_sympy_latex
+    from adcgen.sympy_objects import NonSymmetricTensor, AntiSymmetricTensor, SymmetricTensor, Amplitude
+    rng = ctx.rng
+    drv = ctx.drv()
+    SP = {"": 0, "a": 1, "b": 2}
+
+    def rnd_idx(k):
+        names, spins = [], []
+        while len(names) < k:
+            nm = rng.choice(G.OCC + G.VIRT + G.GEN)
+            if rng.random() < 0.3:
+                nm += str(rng.choice([1, 2, 3, 10, 12]))
+            sp = rng.choice(["", "", "a", "b"])
+            if (nm, sp) in zip(names, spins):
+                continue
+            names.append(nm)
+            spins.append(sp)
+        return [get_symbols([nm], sp or None)[0] for nm, sp in zip(names, spins)]
+
+    def wire(idx):
+        return [[i.name, SP[i.spin]] for i in idx]
+
+    for it in range(n):
+        kind = rng.choice(["asym", "asym", "sym", "nonsym", "ampl"])
+        expo = rng.choice([1, 1, 2, 3, 12])
+        try:
+            if kind == "nonsym":
+                name = rng.choice(["Nt", "e", "B", "M2"])
+                obj = NonSymmetricTensor(name, tuple(rnd_idx(rng.randint(1, 4))))
+                groups = [wire(obj.indices)]
+            else:
+                name = {"asym": rng.choice(["V", "f", "d", "W", "Za"]), "sym": rng.choice(["Sy", "v"]),
+                        "ampl": rng.choice(["t1", "t2cc", "X", "Y"])}[kind]
+                cls = {"asym": AntiSymmetricTensor, "sym": SymmetricTensor, "ampl": Amplitude}[kind]
+                obj = cls(name, tuple(rnd_idx(rng.randint(0, 3))), tuple(rnd_idx(rng.randint(1, 3))))
+                if isinstance(obj, sympy.Mul):      # canonical object times a sign
+                    obj = [a for a in obj.args if not a.is_number][0]
+                if obj is S.Zero or obj.is_number:
+                    continue
+                groups = [wire(obj.upper), wire(obj.lower)]
+        except Exception:
+            ctx.skip("construct")
+            continue
+        text = sympy.latex(obj ** expo)
+        etxt = "" if expo == 1 else str(expo)
+        ans = drv.ask({"op": "tensorprint", "name": name, "groups": groups, "expo": etxt})
+        ctx.count("tensor_texts_printed")
+        ctx.case(("tensorgrammar", text), nontrivial=True)
+        rep = {"kind": "tensor-grammar", "tensor": str(obj), "exponent": expo, "printed": text}
+        if not ans.get("wf"):
+            ctx.violation(f"the generated tensor {name} {groups} is outside the model's well-formedness predicate", rep)
+            continue
+        if ans.get("s") != text:
+            ctx.violation(f"latex({obj}**{expo}) = {text!r} differs from the model printTensor: {ans.get('s')!r}", rep)
+            continue
+        back = drv.ask({"op": "tensorimport", "s": text})
+        if not back.get("ok") or (back["name"], back["groups"], back["expo"]) != (name, groups, etxt):
+            ctx.violation(f"model importTensor does not restore the tensor from {text!r}: {back} (model/driver inconsistency with "
+                          "theorem importTensor_printTensor)", rep)
+            continue
+        try:
+            imp = import_from_sympy_latex(text).sympy
+        except Exception as ex:
+            ctx.violation(f"import of {text!r} raised {type(ex).__name__}: {ex}", rep)
+            continue
+        ctx.count("tensor_texts_imported")
+        base, ex2 = (imp.args if isinstance(imp, sympy.Pow) else (imp, 1))
+        if isinstance(base, sympy.Mul):
+            ctx.violation(f"import of {text!r} gives a product {imp}: the printed (canonical) index order was not kept", rep)
+            continue
+        if kind == "nonsym":
+            got = (base.name, [wire(base.indices)], int(ex2)) if isinstance(base, NonSymmetricTensor) else None
+        else:
+            got = (base.name, [wire(base.upper), wire(base.lower)], int(ex2)) if isinstance(base, AntiSymmetricTensor) else None
+        if got != (name, groups, expo):
+            ctx.violation(f"importing {text!r} gives {imp} = {got}, printed from {(name, groups, expo)}", rep)
+
+
 def run(ctx):
+    index_grammar(ctx, ctx.pick(300, 5000))
+    tensor_grammar(ctx, ctx.pick(300, 5000))
     synthetic(ctx, ctx.pick(250, 5000))
     library(ctx)
 
